@@ -368,6 +368,18 @@ func (g *gen) genFunc(idx int) {
 			g.feat("static.incr")
 		}
 		g.sc.statics = append(g.sc.statics, sv)
+	} else if !g.ex("static.local") && !g.ex("static.nested-block") && g.chance(25, "nstatic") {
+		// a static declared inside a nested block (and nowhere at the top of the body): it is still one
+		// variable per function, initialised once and kept across calls and recursion levels
+		g.feat("static.local")
+		g.feat("static.nested-block")
+		sn := &Var{Name: "sn", T: TInt}
+		inner := []Stmt{
+			&StaticDecl{V: sn, Init: &Lit{T: TInt, I: int64(g.intn(0, 5, "sninit"))}},
+			&IncDec{V: sn, Op: "++"},
+			&Echo{Args: []Expr{&Lit{T: TStr, S: "sn="}, sn, &Lit{T: TStr, S: ";"}}},
+		}
+		body = append(body, &If{Cond: &Lit{T: TBool, B: true}, Then: inner})
 	}
 	body = append(body, g.initScopeLocals(g.sc, pvars)...)
 	if recurse {
